@@ -10,6 +10,7 @@
 #include "../../vlib/vipc.h"
 #include <sys/socket.h>
 #include <netinet/in.h>
+#include <netinet/tcp.h>
 #include <arpa/inet.h>
 #include <poll.h>
 #include <fcntl.h>
@@ -760,6 +761,40 @@ Outcome run_c19(const Case &c) {
     storm.stop();
     if (!o.verdict.empty()) fail("socket-" + o.klass, "blocking socket scenario under interruptions: " + o.verdict);
     if (o.inconclusive) out.inconclusive = true;
+  } else if (sc == "connect_stall") {
+    // a blocking connect (timeout T) whose handshake cannot complete: the listener never accepts and its queue is full, so the SYN stays
+    // unanswered.  The uninterrupted outcome is FALSE / timed-out, not before T; interruptions must not turn it into TRUE (no connection
+    // exists - TCP_INFO still shows SYN_SENT) nor into an interrupted-call error.  If the queue happens to have room the handshake
+    // completes and the case decides nothing.
+    long T = 300;
+    int lst = socket(AF_INET, SOCK_STREAM, 0); sockaddr_storage a; socklen_t al = loop_addr(4, 0, a);
+    if (lst < 0 || bind(lst, (sockaddr *)&a, al) != 0 || listen(lst, 0) != 0) { if (lst >= 0) close(lst); out.inconclusive = true; return out; }
+    int port = port_of(lst); sockaddr_storage la; socklen_t ll = loop_addr(4, port, la);
+    vector<int> fill; for (int i = 0; i < 8; i++) { int f = socket(AF_INET, SOCK_STREAM | SOCK_NONBLOCK, 0); if (f < 0) break; no_time_wait(f); (void)connect(f, (sockaddr *)&la, ll); fill.push_back(f); }
+    usleep(30000);
+    PSocket *s = p_socket_new(P_SOCKET_FAMILY_INET, P_SOCKET_TYPE_STREAM, P_SOCKET_PROTOCOL_TCP, NULL);
+    PSocketAddress *to = p_socket_address_new("127.0.0.1", (puint16)port);
+    if (!s || !to) { out.inconclusive = true; } else {
+      p_socket_set_timeout(s, (pint)T);
+      arm(c.plan); if (storm_period) storm.start(storm_period, 12);
+      PError *err = NULL; double t0 = now_ms();
+      pboolean ok = p_socket_connect(s, to, &err);
+      double dt = now_ms() - t0;
+      storm.stop(); disarm();
+      struct tcp_info ti; socklen_t tl = sizeof ti; memset(&ti, 0, sizeof ti);
+      int have = getsockopt(p_socket_get_fd(s), IPPROTO_TCP, TCP_INFO, &ti, &tl);
+      if (ok) {
+        if (have == 0 && ti.tcpi_state == TCP_SYN_SENT) fail("connect-false-success", "blocking p_socket_connect returned TRUE after " + std::to_string(dt) + " ms while interruptions were delivered, but no connection exists: the handshake is still in progress (TCP state SYN_SENT; the listener's queue is full and it never accepts)");
+        else { out.inconclusive = true; vl::stats().count("connect_stall_handshake_completed"); }
+      } else if (!err || p_error_get_code(err) != P_ERROR_IO_TIMED_OUT) {
+        if (would_block_code(err)) fail("socket-interrupted-error", "blocking connect with a stalled handshake failed with " + errstr(err) + " instead of timed-out");
+        else { out.inconclusive = true; vl::stats().count("connect_stall_other_error"); }
+      } else if (dt < T - 0.5) fail("timed-wait-early-timeout", "connect with timeout " + std::to_string(T) + " ms timed out after only " + std::to_string(dt) + " ms while interruptions were delivered");
+      else vl::stats().klass("connect_stall_timed_out_as_uninterrupted");
+      if (err) p_error_free(err);
+    }
+    if (s) { no_time_wait(p_socket_get_fd(s)); p_socket_free(s); } if (to) p_socket_address_free(to);
+    for (int f : fill) close(f); close(lst);
   } else if (sc == "timed_wait") {
     // a blocking socket WITH a timeout T: (p3 even) nothing ever arrives -> must fail with timed-out, not before T;
     // (p3 odd) the datagram arrives at p1 ms < T -> must be received.  Interruptions must not change either outcome.
@@ -874,7 +909,7 @@ rc::Gen<Case> genC10() {
 }
 rc::Gen<Case> genC19() {
   using namespace rc;
-  return gen::map(gen::tuple(gen::element<string>("sleep", "sleep", "sem_acquire", "shm_lock", "ipc_new", "tcp", "accept_wait", "timed_wait", "timed_wait"), gen::element<long>(1, 20, 60), gen::weightedElement<long>({{2, 0}, {1, 200}, {2, 500}, {2, 2000}, {2, 20000}, {1, 45000}}), rng(0, 4),
+  return gen::map(gen::tuple(gen::element<string>("sleep", "sleep", "sem_acquire", "shm_lock", "ipc_new", "tcp", "accept_wait", "timed_wait", "timed_wait", "connect_stall"), gen::element<long>(1, 20, 60), gen::weightedElement<long>({{2, 0}, {1, 200}, {2, 500}, {2, 2000}, {2, 20000}, {1, 45000}}), rng(0, 4),
                              gen::resize(3, gen::container<vector<Fault>>(genFault({"clock_nanosleep", "sem_wait", "sem_open", "shm_open", "poll", "recv", "send", "connect", "accept"}, true)))),
                   [](const std::tuple<string, long, long, int, vector<Fault>> &t) { Case c; c.prop = "C19"; c.scen = std::get<0>(t); c.p1 = std::get<1>(t); c.p2 = std::get<2>(t); c.p3 = std::get<3>(t); c.plan = std::get<4>(t); return c; });
 }
@@ -923,7 +958,7 @@ void enumerate(const string &prop, long shard, long nshards) {
     vl::stats().exhaustive["C09_every_single_fault_plan_call_x_k<=6_x_fault_on_3_base_transfers"] = true;
   } else if (prop == "C19") {
     struct Site { const char *scen; const char *call; };
-    static const Site sites[] = {{"sleep", "clock_nanosleep"}, {"sem_acquire", "sem_wait"}, {"shm_lock", "sem_wait"}, {"ipc_new", "sem_open"}, {"ipc_new", "shm_open"}, {"tcp", "poll"}, {"tcp", "recv"}, {"tcp", "send"}, {"tcp", "connect"}, {"tcp", "accept"}, {"accept_wait", "poll"}, {"accept_wait", "accept"}, {"accept_wait", "recv"}, {"timed_wait", "poll"}, {"timed_wait", "recv"}};
+    static const Site sites[] = {{"sleep", "clock_nanosleep"}, {"sem_acquire", "sem_wait"}, {"shm_lock", "sem_wait"}, {"ipc_new", "sem_open"}, {"ipc_new", "shm_open"}, {"tcp", "poll"}, {"tcp", "recv"}, {"tcp", "send"}, {"tcp", "connect"}, {"tcp", "accept"}, {"accept_wait", "poll"}, {"accept_wait", "accept"}, {"accept_wait", "recv"}, {"timed_wait", "poll"}, {"timed_wait", "recv"}, {"connect_stall", "poll"}, {"connect_stall", "connect"}};
     for (auto &s : sites)
       for (int k = 1; k <= (string(s.scen) == "ipc_new" ? 9 : 5); k++)
         for (int burst : {1, 3}) {
@@ -938,7 +973,7 @@ void enumerate(const string &prop, long shard, long nshards) {
           if (string(s.scen) == "timed_wait") { Case d = c; d.p3 = k + 1; exec("enum", d, false); }   // both variants: nothing arrives / late datagram
         }
     // signal storms: every site x 5 periods
-    for (const char *scen : {"sleep", "sem_acquire", "shm_lock", "ipc_new", "tcp", "accept_wait", "timed_wait", "timed_wait_late"})
+    for (const char *scen : {"sleep", "sem_acquire", "shm_lock", "ipc_new", "tcp", "accept_wait", "timed_wait", "timed_wait_late", "connect_stall"})
       for (long period : {200L, 450L, 1000L, 3000L, 15000L, 40000L}) {
         if ((idx++ % nshards) != shard) continue;
         Case c; c.prop = "C19"; c.scen = scen; c.p1 = string(scen) == "sleep" ? 60 : 25; c.p2 = period; c.p3 = period % 2;
